@@ -43,6 +43,7 @@ def io_set(ctx):
 def run(ctx):
     _run_main(ctx)
     _shared_r4(ctx)
+    _shared_r5(ctx)
 
 
 def _run_main(ctx):
@@ -257,3 +258,11 @@ def _shared_r4(ctx):
     with ctx.rule('R05.10', 'the I/O thread never blocks on a client queue, and its timers run on the negotiated heartbeat (shared with C03 / C15)', floor=2) as r:
         A.include(ctx, r, 'c03', 'R03.6', pick=('blocking:', 'send:try_send'))
         A.include(ctx, r, 'c15', 'R15.3', pick=('timers',))
+
+
+def _shared_r5(ctx):
+    """Rules of other properties that are necessary conditions of this one too (found by seeding round 5)."""
+    from rules import arms as A
+    with ctx.rule('R05.11', 'the connection ends once its closing frame is flushed, in every closing state, and the seal survives the write loop (shared with C08 / C01)', floor=2) as r:
+        A.include(ctx, r, 'c08', 'R08.5', pick=('done:',))
+        A.include(ctx, r, 'c01', 'R01.7', pick=('forward:clear',))
